@@ -5,7 +5,8 @@
 export GOFLAGS=-mod=mod GOPROXY=off GOSUMDB=off GOTOOLCHAIN=local
 J="${1:-4}"; G="${2:-*}"
 cd /verif
-ls -d seeded/$G/ | sed 's#/$##' > /tmp/regress-list.txt
+if [ -n "$REGRESS_LIST" ]; then cp "$REGRESS_LIST" /tmp/regress-list.txt; else ls -d seeded/$G/ | sed 's#/$##' > /tmp/regress-list.txt; fi
+OUT="${REGRESS_OUT:-/verif/seeded/REGRESSION.txt}"
 HEAD=$(git -C /repo rev-parse HEAD)
 worker() {
   k=$1; wt=/tmp/regress-$k
@@ -17,12 +18,12 @@ import json,re,sys
 m=json.load(open('$d/meta.json')); c=re.findall(r'C\d\d', m.get('caught_by',''))
 print(c[0] if c else '$id'[:3])")
     patch=$d/patch.diff; [ -f $d/patch-rebased.diff ] && patch=$d/patch-rebased.diff
-    ( cd $wt && git checkout -q -- . && git clean -qfd -e _seed )
+    ( cd $wt && git reset -q --hard && git clean -qfd -e _seed )
     if ! git -C $wt apply /verif/$patch 2>/dev/null; then
       # the patch predates later fixes in /repo: try a 3-way merge using the blobs named in the patch
-      ( cd $wt && git checkout -q -- . )
+      ( cd $wt && git reset -q --hard )
       if ! git -C $wt apply --3way /verif/$patch >/dev/null 2>&1 || git -C $wt diff --name-only --diff-filter=U | grep -q .; then
-        ( cd $wt && git checkout -q -- . && git reset -q )
+        ( cd $wt && git reset -q --hard )
         echo "$id $prop NOAPPLY"; continue
       fi
       git -C $wt reset -q
@@ -40,5 +41,5 @@ print(c[0] if c else '$id'[:3])")
 }
 for k in $(seq 1 $J); do worker $k > /tmp/regress-out-$k.txt 2>&1 & done
 wait
-{ echo "# seed regression at /repo $HEAD, /verif $(git rev-parse --short HEAD), $(date -u +%F)"; cat /tmp/regress-out-*.txt | sort; } > /verif/seeded/REGRESSION.txt
-grep -vc CAUGHT /verif/seeded/REGRESSION.txt
+{ echo "# seed regression at /repo $HEAD, /verif $(git rev-parse --short HEAD), $(date -u +%F)"; cat /tmp/regress-out-*.txt | sort; } > "$OUT"
+grep -vc CAUGHT "$OUT"
